@@ -121,3 +121,41 @@ def read_lines(path, gz=False):
 def load_pickle(path):
     with open(path, "rb") as f:
         return pickle.load(f)
+
+
+def multi_chrom_graph(nchrom, decl="alt"):
+    """1-3 chromosomes, each a bubble chain; chr1 has an inversion block (scaffold traversable in both orientations)"""
+    specs = [
+        (["snp", "inversion", "insertion"], "chr1", 0, "hA#1#c", 5),
+        (["deletion"], "chr2", 40, "hB#1#c", 2),
+        (["triallelic", "link"], "chr3", 70, "hC#1#c", 2),
+    ][:nchrom]
+    chains = [gen.Chain(b, chrom=c, id_base=i, hap=h, decl=decl, scaffold_len=sl) for b, c, i, h, sl in specs]
+    return gen.merge_graphs([c.g for c in chains]), chains
+
+
+def chain_walk_records(g, chain_graph_ids, maxlen, start_ordinal=0, extra_tags=()):
+    """records over every real walk (and hence every reversed walk) of <= maxlen steps inside one component"""
+    sides = g.side_set()
+    n = start_ordinal
+    out = []
+    for steps in gen.step_sequences(chain_graph_ids, maxlen):
+        if not g.is_walk(steps, sides):
+            continue
+        total = sum(g.segs[x].LN for o, x in steps)
+        s, e = (0, total) if n % 2 == 0 else (min(1, total - 1), total)
+        r = rgfa.Rec(f"w{n}", (e - s) + 2, 1, 1 + (e - s), "+", rgfa.steps_str(steps), total, s, e, e - s, e - s, 60,
+                     ["tp:A:P", "NM:i:0", f"cg:Z:{e - s}="] + list(extra_tags))
+        out.append(r)
+        n += 1
+    return out
+
+
+def expected_tags(g, rec):
+    k = sort_key(g, rec)
+    return {f"bo:i:{k['BO']}", f"sn:Z:{k['sn']}", f"iv:i:{k['iv']}"}
+
+
+def split_appended(line, nfields=3):
+    f = line.split("\t")
+    return "\t".join(f[:-nfields]), f[-nfields:]
